@@ -552,7 +552,10 @@ class ScenarioLoader:
                 os=os_cfg,
                 services=srv_cfg,
                 processes=proc_cfg,
-                firewall=h_cfg[u.HOST_FIREWALL],
+                firewall={
+                    eval(addr): srvs
+                    for addr, srvs in h_cfg[u.HOST_FIREWALL].items()
+                },
                 value=value
             )
         self.hosts = hosts
